@@ -327,7 +327,14 @@ func verifRun(c *mon.Case) *mon.Result {
 	}
 {{end}}
 	opts = append(opts, func(p *parser) Option { vp = p; mon.SetLive(&p.ExprCnt); return nil })
-	in := append([]byte{}, c.Input...) // never nil: Parse and ParseReader must see the same kind of buffer
+	// the input is a prefix of a larger buffer of the caller's (never nil: Parse and ParseReader must
+	// see the same kind of buffer); the spare capacity holds a canary
+	buf := make([]byte, len(c.Input)+8)
+	copy(buf, c.Input)
+	for i := len(c.Input); i < len(buf); i++ {
+		buf[i] = 0xA5
+	}
+	in := buf[:len(c.Input)]
 	var val any
 	var err error
 	func() {
@@ -343,6 +350,10 @@ func verifRun(c *mon.Case) *mon.Result {
 		}
 	}()
 	mon.SetLive(nil)
+	if !bytes.Equal(in, c.Input) || !bytes.Equal(buf[len(in):], []byte{0xA5, 0xA5, 0xA5, 0xA5, 0xA5, 0xA5, 0xA5, 0xA5}) {
+		res.Touched = fmt.Sprintf("input % x + spare capacity a5 a5 a5 a5 a5 a5 a5 a5 -> % x", c.Input, buf)
+		res.InputChanged = true
+	}
 	if c.Reader && res.Panic == "" {
 		// a result must stay what it is when the entry point is used again
 		v1 := mon.Canon(val)
